@@ -6,7 +6,7 @@ import ast
 from . import dg_rules as dg
 from . import core_folds as cf
 
-EXPLANATION = 'Folds of the Datagroup class interpreted over token members: (R1) finite histories of insert/replace/update/delete/pop with members of equal and unequal length and scalar members: a mis-shaped item is rejected with the group and the value unchanged, every stored item is renamed to its key; (R2) no function outside core/datagroup.py touches the backing dict (resolved attribute sweep); (R3) group[int|slice|mask|mask as Array|index array] and sortby(name|index list|None): every member (Arrays and Vector components) is indexed with ONE object, units and names kept; members with names the class itself compares against; aliased members (same Array under two names, Vector component stored as a member) permuted once; (R4) Vector mapping methods act on every component; Array.__getitem__ over index kinds x the dtype model (integer/bool Array indexes accepted, others rejected, Vector rejected). Constructor forms go through the insertion gate; slices are compared by the rows they select (negative steps included); a Vector whose component is re-assigned after construction is indexed through its current components. Histories also cover zero-row members, replacement of the first-inserted member, N-d boolean masks on N-d members and Datagroup.layer after a member was replaced. Indexing and sorting run over groups of one Array, one Vector, two and three members; insertion histories cover members of another rank and 0-d members.'
+EXPLANATION = 'Folds of the Datagroup class interpreted over token members: (R1) finite histories of insert/replace/update/delete/pop with members of equal and unequal length and scalar members: a mis-shaped item is rejected with the group and the value unchanged, every stored item is renamed to its key; (R2) no function outside core/datagroup.py touches the backing dict (resolved attribute sweep); (R3) group[int|slice|mask|mask as Array|index array] and sortby(name|index list|None): every member (Arrays and Vector components) is indexed with ONE object, units and names kept; members with names the class itself compares against; aliased members (same Array under two names, Vector component stored as a member) permuted once; (R4) Vector mapping methods act on every component; Array.__getitem__ over index kinds x the dtype model (integer/bool Array indexes accepted, others rejected, Vector rejected). Constructor forms go through the insertion gate; slices are compared by the rows they select (negative steps included); a Vector whose component is re-assigned after construction is indexed through its current components. Histories also cover zero-row members, replacement of the first-inserted member, N-d boolean masks on N-d members and Datagroup.layer after a member was replaced. Indexing and sorting run over groups of one Array, one Vector, two and three members; insertion histories cover members of another rank and 0-d members. Indices include python lists of rows and the empty list.'
 NOT_DECIDED = "numpy's fancy-indexing semantics themselves; members of dimension > 1"
 TRUSTED = ('CPython ast', 'numpy indexing', 'the interpreter sa/models.py (ModelEval) and its library models')
 
